@@ -156,7 +156,9 @@ Fixpoint activeSpec (iss : Z) (steps : list astep) : Z :=
       let wrongAck := has (hs_flags s) fAck && negb (has (hs_flags s) fRst) && negb (hs_ack s =? (iss + 1) mod 2^32) in
       (* a connection exists only after a SYN-ACK acknowledging exactly our SYN (or, after a
          simultaneous open, an ACK doing so) *)
-      if (est =? estConnected) && negb (has (hs_flags s) fAck && negb (has (hs_flags s) fRst) && (hs_ack s =? (iss + 1) mod 2^32)) then 1
+      (* a reset is never answered, whatever else it carries *)
+      if has (hs_flags s) fRst && negb (hfs_eqb fr []) then 1
+      else if (est =? estConnected) && negb (has (hs_flags s) fAck && negb (has (hs_flags s) fRst) && (hs_ack s =? (iss + 1) mod 2^32)) then 1
       else if wrongAck && negb (resetOK s fr && (est =? estConnecting)) then 1
       else
         let iss' := fold_left (fun i f => if hf_flags f =? fSyn then hf_seq f else i) fr iss in
@@ -169,7 +171,8 @@ Fixpoint passiveSpec (iss : Z) (steps : list astep) : Z :=
   | (s, _, fr, st) :: rest =>
       let ackOK := has (hs_flags s) fAck && negb (has (hs_flags s) fRst) && (hs_ack s =? (iss + 1) mod 2^32) in
       let wrongAck := has (hs_flags s) fAck && negb (has (hs_flags s) fRst) && negb (hs_ack s =? (iss + 1) mod 2^32) in
-      if (st =? 1) && negb ackOK then 1
+      if has (hs_flags s) fRst && negb (hfs_eqb fr []) then 1
+      else if (st =? 1) && negb ackOK then 1
       else if wrongAck && negb (resetOK s fr && (st =? 0)) then 1
       else if st =? 0 then passiveSpec iss rest else 0
   end.
